@@ -141,8 +141,12 @@ class Check:
                     print(ln)
             except BrokenPipeError:
                 pass
+        printed = set()
         for v, ent in known_hits:
-            print("KNOWN-FINDING: property=%s %s %s :: %s (%s)" % (self.pid, v.rule, v.instance, v.detail, v.where))
+            if v.key in printed:
+                continue
+            printed.add(v.key)
+            print("KNOWN-FINDING: property=%s %s %s %s :: %s (%s)" % (self.pid, ent.get("id", ""), v.rule, v.instance, v.detail[:300], v.where))
         for v in new:
             print("  %s  %s  %s\n      %s" % (v.where, v.rule, v.instance, v.detail))
         wall = round(time.time() - t0, 3)
